@@ -3,10 +3,22 @@ from fractions import Fraction as Fr
 from .. import gen as G
 from .common import TRUSTED, ASSUMPTIONS, LEVEL_NOTE, TECHNIQUE
 from . import C14 as _C14
+from . import C12 as _C12
 
 LEVEL = "proof"
-THEOREMS = ['C19_mul_exact_ok', 'C19_comul_exact_ok', 'C19_deduce_exact_ok', 'C19_trans_exact_ok', 'C19_product_exact_ok', 'C19_cfuse_exact_ok', 'C19_afuse_exact_ok', 'C19_wfuse_exact_ok', 'C19_legit_failures', 'C19_exact_wf']
-RULE = ("the nine binomial operators and the unlabelled Product2/3 on well-formed operands inside their documented domains: 1/8 grid "
+THEOREMS = ['C19_mul_exact_ok', 'C19_comul_exact_ok', 'C19_mul_tolerated_ok', 'C19_comul_tolerated_ok', 'C19_deduce_exact_ok', 'C19_trans_exact_ok', 'C19_product_exact_ok', 'C19_cfuse_exact_ok', 'C19_afuse_exact_ok', 'C19_wfuse_exact_ok', 'C19_legit_failures', 'C19_exact_wf']
+RULE = ("bmul/bcomul on plain DECIMAL operands and blaw CHAINS on the ninths / tenths / twelfths grids (streams of C12, incl. the enumerated "
+        "operand tuples that mul / comul rejected before repair d46c983: gen/corpus/binorm_hot.txt), and bmul/bcomul/blaw on operands whose "
+        "masses add up to 1 + k*eps/2 for every k the constructors accept (-4 .. +8: the operands' deviation must not be passed on to the "
+        "self-check); blaw (both sides of a law of mul / comul, base rates in [2^-10, 1 - 2^-10]) must not fail on operands that are "
+        "well-formed within the constructors' tolerance; "
+        "bdeduce on plain DECIMAL operands (0.1 / 0.01 grids, rates 0.001 .. 0.999) and with small rates (down to 1e-8) / conditionals "
+        "10^-k apart; bfold: LEFT FOLDS acc = acc.op(next)? of cfuse / afuse / wfuse over k = 3..10 non-dogmatic operands (dyadic 1/8 .. 1/64 "
+        "and arbitrary floats; the result of one call is the operand of the next: a failure at any step is legitimate only if two operands "
+        "are exactly dogmatic, for cfuse); "
+        "unlabelled Product2/3 on the small-base-rate stream of C06 (one base-rate entry 2^-k under a heavy mass, uncertainties 2^-j, other "
+        "factors (nearly) dogmatic; must never fail); "
+        "the nine binomial operators and the unlabelled Product2/3 on well-formed operands inside their documented domains: 1/8 grid "
         "(exhaustive pairs in thorough) and random dyadic grids (must never fail), arbitrary non-dyadic floats (every failure is "
         "classified through the hook by rejected label and distance from the admissible set: rounding residue <= 1e-9 vs ill-formed "
         "result); the five binary binomial operators also with variant `alias` (the same object as both operands); f32+f64. "
@@ -24,11 +36,100 @@ def nontrivial(r):
     return r.get("oracle", "skip") != "skip"
 
 
+# fold lengths: SHORT folds only.  The exact model evaluates every fold in rational arithmetic, where the base rate of a
+# cumulative fold grows quadratically in size with the number of steps; many short folds give the statistical power
+FOLD_K = [3, 5, 8, 10, 10, 10, 10]
+
+
+def fold_operand(rng, fmt):
+    """a non-dogmatic, non-vacuous binomial opinion: dyadic (1/8 .. 1/64) or arbitrary floats with u in (0.02, 0.98)"""
+    if rng.random() < 0.6:
+        return G.rand_bop(rng, rng.choice([8, 8, 16, 32, 64]), "int")
+    while True:
+        w = G.float_bop(rng, fmt)
+        if 0.02 < w[2] < 0.98:
+            return w
+
+
+def fold_cases(rng, fmt, n, variant="B.o", kinds=(0, 0, 0, 1, 2)):
+    """`bfold`: left fold of cfuse / afuse / wfuse over k = 3..10 operands (shared with C13, variant B.o.vs)"""
+    out = []
+    for _ in range(n):
+        kind = rng.choice(kinds)
+        k = rng.choice(FOLD_K)
+        z = rng.random()
+        if z < 0.15:                      # the same few operands over and over (x, x, z, s, ..)
+            pool = [fold_operand(rng, fmt) for _ in range(rng.randint(1, 3))]
+            ws = [rng.choice(pool) for _ in range(k)]
+        else:
+            ws = [fold_operand(rng, fmt) for _ in range(k)]
+        sc = [v for w in ws for v in w]
+        if kind != 0:
+            sc.append(rng.choice([Fr(1, 2), Fr(1, 4), rng.random()]))
+        out.append(G.line("bfold", fmt, variant, [kind, k], sc))
+    return out
+
+
+def band_operand(rng, fmt):
+    """a binomial opinion whose masses add up to 1 + k*eps/2 EXACTLY (k = -4 .. -1, or +2, +4, +6, +8: the whole window
+    [1 - 2 eps, 1 + 4 eps] that the constructors accept): a dyadic or plain decimal operand with one non-zero mass moved by k
+    half-ulps of 1; base rate inside [1/64, 63/64] or j/100"""
+    e = Fr(G.EPS[fmt])
+    while True:
+        if rng.random() < 0.6:
+            w = G.rand_bop(rng, rng.choice([8, 16, 64]))
+            w[3] = Fr(rng.randint(1, 63), 64)
+        else:
+            w = [Fr(v) for v in _C12.decimal_operand(rng, fmt)]
+            if sum(w[:3]) != 1:
+                continue
+        k = rng.choice([-4, -4, -3, -3, -2, -1, 2, 4, 6, 8])
+        idx = [i for i in range(3) if w[i] > 0]
+        i = rng.choice(idx)
+        w = list(w)
+        w[i] = w[i] + k * e / 2
+        if w[i] < 0 or any(Fr(G.round_fmt(fmt, float(v))) != v for v in w):
+            continue
+        b, d, u = (G.round_fmt(fmt, float(v)) for v in w[:3])
+        if Fr(_C12._fsum3(fmt, b, d, u)) != 1 + k * e / 2:
+            continue
+        return w
+
+
+def band_cases(rng, fmt, n):
+    """bmul / bcomul / blaw on operands at the edges of (and inside) the window of the self-check: before repair d46c983 the operands'
+    deviation from 1 was passed on to the result almost undamped"""
+    out = []
+    for _ in range(n):
+        x, y, z = band_operand(rng, fmt), band_operand(rng, fmt), band_operand(rng, fmt)
+        if rng.random() < 0.7:
+            out.append(G.line(rng.choice(["bmul", "bcomul"]), fmt, "B.o", [], x + y))
+        else:
+            out.append(G.line("blaw", fmt, "B.o", [rng.choice([0, 1, 1, 2, 3, 3, 4, 5])], x + y + z))
+    return out
+
+
 def cases(rng, tier):
     out = []
     grid = G.grid_bops(8)
     for fmt in ("f64", "f32"):
         N = 2500 if tier == "quick" else 60000
+        # mul / comul on plain decimal operands, chains on non-dyadic grids, the enumerated pre-repair rejections of both families, and
+        # operands anywhere in the constructors' window (streams added with repair d46c983)
+        out += _C12.hot_cases(fmt, False) + _C12.decimal_cases(rng, fmt, N // 5) + _C12.chain_cases(rng, fmt, N // 5)
+        out += band_cases(rng, fmt, N * 2 // 5)
+        # plain decimal operands and small rates for deduce (streams of C14; here every operand tuple that is well-formed within
+        # the constructors' tolerance counts, and a rejection by rounding residue is this property's finding)
+        out += [ln for ln in _C14.decimal_streams(rng, fmt, N, N // 2) if ln.startswith("bdeduce ")]
+        # folds of the binomial fusions: the result of one call is the operand of the next
+        out += fold_cases(rng, fmt, N * 2 // 5 if tier == "quick" else N // 4)
+        # unlabelled (self-validating) products with one small joint base rate: the stream of C06 (G.small_rate_factors; exactly
+        # well-formed dyadic factors, non-dyadic ones within the constructors' tolerance; 60% steered to operands on which the
+        # cancelling quotient of the products before repair abca806 came out visibly wrong, there: negative, and Opinion::new panicked)
+        for _ in range(N // 10):
+            ar = rng.choice([2, 2, 3])
+            ns, ws = G.small_rate_factors(rng, fmt, ar, hazard=rng.random() < 0.6)
+            out.append(G.line("prod2" if ar == 2 else "prod3", fmt, "M." + rng.choice(["o", "r"]), ns, [x for w in ws for x in w]))
         if tier == "thorough" and fmt == "f64":
             for x in grid:
                 for y in rng.sample(grid, 40):
